@@ -32,51 +32,60 @@ def kf_rust_week_zero(fl):
     return fl.get("backend") == "rust" and fl.get("kind") == "accepted-invalid" and fl.get("week_or_weekday_zero") is True
 
 
-def _worker(env, payload, timeout):
-    p = subprocess.run([sys.executable, os.path.join(ROOT, "bounded", "iso_worker.py")], input=json.dumps(payload), capture_output=True, text=True,
+def _worker(script, env, payload, timeout):
+    p = subprocess.run([sys.executable, os.path.join(ROOT, "bounded", script)], input=json.dumps(payload), capture_output=True, text=True,
                        env=env, timeout=timeout)
     if p.returncode != 0:
-        raise RuntimeError(f"iso_worker failed: {p.stderr[-1500:]}")
+        raise RuntimeError(f"{script} failed: {p.stderr[-1500:]}")
     out = json.loads(p.stdout.strip().splitlines()[-1])
     if "error" in out:
         raise RuntimeError(out["error"])
     return out
 
 
-def run(ctx):
+def run_both_backends(ctx, scripts, seed_shift=7):
+    """run the worker scripts once with the pure-Python backend (in parallel) and once with the Rust extension rebuilt
+    from the working tree; record every item of every worker"""
     from bounded import rustdiff
 
     repo = os.environ.get("PYVC_REPO", "/repo")
-    timeout = 900 if ctx.tier == "quick" else 6 * 3600
-    results = {}
+    timeout = 1200 if ctx.tier == "quick" else 8 * 3600
+    results = {"python": [], "rust": []}
 
     def py():
         env = dict(os.environ, PENDULUM_EXTENSIONS="0", PYTHONPATH=f"{os.path.join(repo, 'src')}:{ROOT}", PYTHONHASHSEED="0")
-        try:
-            results["python"] = _worker(env, dict(backend="python", seed=ctx.seed + 7, tier=ctx.tier), timeout)
-        except Exception as e:  # noqa: BLE001
-            results["python"] = e
+        for sc in scripts:
+            try:
+                results["python"].append(_worker(sc, env, dict(backend="python", seed=ctx.seed + seed_shift, tier=ctx.tier), timeout))
+            except Exception as e:  # noqa: BLE001
+                results["python"].append(e)
 
     th = threading.Thread(target=py)
     th.start()
     with rustdiff.rust_overlay(repo) as (ov, info):
         if ov is None:
-            results["rust"] = RuntimeError(f"rust backend could not be rebuilt: {info}")
+            results["rust"].append(RuntimeError(f"rust backend could not be rebuilt: {info}"))
         else:
             env = dict(os.environ, PENDULUM_EXTENSIONS="1", PYTHONPATH=f"{ov}:{ROOT}", PYTHONHASHSEED="0")
-            try:
-                results["rust"] = _worker(env, dict(backend="rust", seed=ctx.seed + 7, tier=ctx.tier), timeout)
-                results["rust"]["build"] = info
-            except Exception as e:  # noqa: BLE001
-                results["rust"] = e
+            for sc in scripts:
+                try:
+                    out = _worker(sc, env, dict(backend="rust", seed=ctx.seed + seed_shift, tier=ctx.tier), timeout)
+                    out["build"] = info
+                    results["rust"].append(out)
+                except Exception as e:  # noqa: BLE001
+                    results["rust"].append(e)
     th.join()
     for backend in ("python", "rust"):
-        out = results[backend]
-        if isinstance(out, Exception):
-            ctx.run.errors.append(f"{backend} parser sweep did not run: {out}")
-            continue
-        for it in out["items"]:
-            rule = it["rule"] + (f" [cargo build {out['build']:.0f}s]" if backend == "rust" else "")
-            ctx.record(it["name"], it["evaluations"], it["distinct"], rule, exhaustive=it["exhaustive"], failures=it["failures"],
-                       kind="rust-differential" if backend == "rust" else "stand-in", secs=it.get("secs"),
-                       samples=[{"backend": out["module"]}] + [{"class": c} for c in it.get("failure_classes", [])[:4]])
+        for out in results[backend]:
+            if isinstance(out, Exception):
+                ctx.run.errors.append(f"{backend} sweep did not run: {out}")
+                continue
+            for it in out["items"]:
+                rule = it["rule"] + (f" [cargo build {out['build']:.0f}s]" if backend == "rust" else "")
+                ctx.record(it["name"], it["evaluations"], it["distinct"], rule, exhaustive=it["exhaustive"], failures=it["failures"],
+                           kind="rust-differential" if backend == "rust" else "stand-in", secs=it.get("secs"),
+                           samples=[{"backend": out["module"]}] + [{"class": c} for c in it.get("failure_classes", [])[:4]])
+
+
+def run(ctx):
+    run_both_backends(ctx, ["iso_worker.py"])
